@@ -43,6 +43,10 @@ type history struct {
 	Ops    []porcupine.Operation
 	Panics []string
 	Hung   bool
+	// set by runClientsWatched (hang.go) only
+	Deadlock string // non-empty: goroutine-state deadlock verdict (description of the parked goroutines)
+	Stacks   string
+	Sampled  bool // the clients were slow enough for the watcher to sample goroutine states
 }
 
 // runClients executes progs[i] on goroutine i. With timed=true every
